@@ -219,6 +219,11 @@ def judge(case, res):
                                           case['fault'], case['cls'], comp, type(exc).__name__, str(exc)[-200:]), payload)
             ln = getattr(exc, 'line', None)
             where = (os.path.realpath(ln.file), ln.number) if ln is not None and isinstance(getattr(ln, 'file', None), str) else None
+            if case['cls'] == 'duplabel' and where not in sites:
+                # the assembler does not refuse duplicate labels as such; a refusal elsewhere is a side effect of the label's new
+                # place (an operand pushed out of range) and says nothing about the planted line
+                res.count('duplabel_side_effect')
+                return
             if where not in sites:
                 raise env.CaseFailure('where:%s' % sig_tail, 'planted %r at %r but the error names %r (%s)' % (
                     case['fault'], sites, where, exc.message if hasattr(exc, 'message') else exc), payload)
